@@ -172,6 +172,36 @@ def run(repo='/repo', tier='quick'):
     mn = [l['v'] for bb, ii, s2 in f.stmts() for l in nodes(s2, lambda y: y.get('k') == 'lit' and y.get('name') == 'HTP_VALID_STATUS_MIN')]
     mx = [l['v'] for bb, ii, s2 in f.stmts() for l in nodes(s2, lambda y: y.get('k') == 'lit' and y.get('name') == 'HTP_VALID_STATUS_MAX')]
     res.check(okrange and mn[:1] == [100] and mx[:1] == [999], 'C17.b', 'status:range-100-999', 'status is invalid iff < 100 or > 999', 'the status validity range is not 100..999 (min %s max %s)' % (mn[:1], mx[:1]), f.loc)
+    # no narrowing before the range check: results of the 64-bit numeric parsers are received in 64-bit objects
+    NUM = {n for n, g in db.fn.items() if g.ret in ('long', 'long long') and (n.startswith('htp_parse_') or n.startswith('bstr_util_mem_to_pint') or n.startswith('bstr_to_pint'))}
+    res.analysed['64-bit numeric parsers'] = sorted(NUM)
+    nrecv = 0
+    for g in db.fn.values():
+        for b, i, st in g.stmts():
+            for x in nodes(st, lambda y: y.get('k') in ('assign', 'decl')):
+                pairs = []
+                if x['k'] == 'assign' and x['op'] == '=':
+                    pairs.append((strip(x['l']).get('t'), P.K(x['l']), x['r'], x))
+                elif x['k'] == 'decl':
+                    pairs += [(v['t'], v['name'], v['init'], x) for v in x['vars'] if 'init' in v]
+                for t, name, r, node in pairs:
+                    r0 = strip(r)
+                    # also through an explicit cast: (int) parse(...)
+                    if r0 is not None and r0.get('k') == 'call' and r0.get('callee') in NUM:
+                        nrecv += 1
+                        wide = t in ('long', 'unsigned long', 'long long', 'unsigned long long')
+                        res.check(wide, 'C17.b', '%s:receives:%s' % (g.name, r0['callee']), 'the 64-bit result is kept in a 64-bit object (%s %s) until it is range-checked' % (t, name),
+                                  '%s stores the 64-bit result of %s() into `%s %s` before any range check: values of the form k*2^32 + v wrap to v and pass as valid' % (g.name, r0['callee'], t, name), node['loc'])
+    res.floor('C17.b', 'receivers of 64-bit parser results', nrecv, 8)
+    f = db.get('htp_parse_status')
+    okst = False
+    for b, i, st in f.returns():
+        rv = P.ret_value(st)
+        if rv is not None and rv.get('k') == 'var':
+            facts = [a for a, e in P.facts_at(f, b)]
+            okst = (rv['name'], '>=', 'HTP_VALID_STATUS_MIN') in facts and (rv['name'], '<=', 'HTP_VALID_STATUS_MAX') in facts
+    res.check(okst, 'C17.b', 'htp_parse_status:range-before-return', 'the parsed status is returned only under MIN <= r <= MAX', 'htp_parse_status returns the parsed number without the 100..999 range test', f.loc)
+
     # ---------------- C17.c
     for name, cmp_ok in (('htp_table_get', {'bstr_cmp_nocase'}), ('htp_table_get_c', {'bstr_cmp_c_nocasenorzero', 'bstr_cmp_c_nocase'}), ('htp_table_get_mem', {'bstr_cmp_mem_nocase'})):
         f = db.get(name)
